@@ -8,7 +8,7 @@ from props import common
 
 ID = "C01"
 MODULES = ["Series", "SO2", "SE2", "Rn", "SO3", "SE3", "SE23", "Products"]
-LEAN_TARGETS = ["Props.C01", "Props.C01P"]
+LEAN_TARGETS = ["Props.C01", "Props.C01P", "Props.C07"]   # C07: from_Matrix is a right inverse of to_Matrix on SO(3) (Shepperd, MRP)
 ANCHORS = ["cyecca/lie/base.py", "cyecca/lie/group_so2.py", "cyecca/lie/group_se2.py", "cyecca/lie/group_rn.py",
            "cyecca/lie/group_so3.py", "cyecca/lie/group_se3.py", "cyecca/lie/group_se23.py",
            "cyecca/lie/direct_product.py"]
@@ -90,6 +90,39 @@ def check_group(g: common.Group, rng, n, found, stats):
                        {"X": X.tolist(), "from_Matrix": W.tolist()}, d)
 
 
+def check_from_matrix_special(rng, found, stats):
+    """from_Matrix as a right inverse of to_Matrix on EXACT special rotations: 180 degree turns (symmetric matrices, quaternion
+    scalar part exactly 0) and turns about a coordinate axis (exactly-zero off-diagonal pivots)"""
+    mats = [np.diag([1.0, -1.0, -1.0]), np.diag([-1.0, 1.0, -1.0]), np.diag([-1.0, -1.0, 1.0])]
+    for _ in range(3):
+        n = nl.rand_axis(rng); mats.append(2 * np.outer(n, n) - np.eye(3))
+    for j in range(3):
+        for ang in (2.2, -2.7, np.pi, 3.6):
+            ax = np.zeros(3); ax[j] = 1.0
+            mats.append(nl.quat_to_R(nl.quat_axis_angle(ax, ang)))
+    for g in common.groups():
+        if g.name not in ("SO3Quat", "SO3Mrp", "SO3Dcm", "SE3Quat", "SE3Mrp", "SE23Quat", "SE23Mrp"):
+            continue
+        try:
+            if not nl.offered(g.mod, g.name + ".fromMatrix"):
+                continue
+            fromM = nl.F(g.mod, g.name + ".fromMatrix"); toM = nl.F(g.mod, g.name + ".toMatrix")
+        except Exception:   # noqa: BLE001
+            continue
+        for R in mats:
+            M = np.eye(g.mdim); M[:3, :3] = R
+            if g.mdim > 3:
+                M[:3, 3:] = rng.standard_normal((3, g.mdim - 3))
+            W = np.atleast_1d(fromM(M)); stats["evaluations"] += 1
+            back = np.atleast_2d(toM(W))
+            d = np.max(np.abs(back - M)) if np.all(np.isfinite(back)) else float("inf")
+            if not d <= 1e-8 * (1 + np.max(np.abs(M))):
+                if not any(f["case"] == g.name + ".fromMatrix:roundtrip:special" for f in found):
+                    found.append({"case": g.name + ".fromMatrix:roundtrip:special", "function": g.name,
+                                  "what": "to_Matrix(from_Matrix(M)) != M for an exact 180-degree / axis-aligned rotation",
+                                  "inputs": {"M": M.tolist(), "from_Matrix": W.tolist()}, "error": float(min(d, 1e9)), "tolerance": 1e-8})
+
+
 def check_euler_band(rng, n, found, stats):
     """products of valid Euler elements that land inside the gimbal band: documented tolerance only"""
     prod = nl.F("SO3", "SO3Euler.product"); toM = nl.F("SO3", "SO3Euler.toMatrix")
@@ -120,6 +153,7 @@ def search(ctx):
         except Exception as e:   # entry point raises: reported by extraction; note here
             ctx.notes.append("search: %s raised %s: %s" % (g.name, type(e).__name__, str(e)[:120]))
     try:
+        check_from_matrix_special(rng, found, stats)
         check_euler_band(rng, n, found, stats)
     except Exception as e:
         ctx.notes.append("search: euler band raised %s" % e)
